@@ -331,6 +331,16 @@ impl Workload {
             .get(&FeWorkIdentifier::Glyph(glyph_name.clone()));
         let be_id = AnyWorkId::Be(BeWorkIdentifier::GlyfFragment(glyph_name));
 
+        // Glyph order starts as soon as the last glyph *worker* is done, which can be before
+        // we get to handle that glyph's completion here. If it is running (or done) it may
+        // have rewritten this glyph, e.g. turned its components into contours, so the glyph
+        // we just read says nothing about whether the BE job has to wait for glyph order.
+        let glyph_order_started = self
+            .jobs_pending
+            .get(&AnyWorkId::Fe(FeWorkIdentifier::GlyphOrder))
+            .map(|job| job.running)
+            .unwrap_or(true);
+
         // If the inputs to the BE glyph didn't change it won't be pending
         let Some(be_job) = self.jobs_pending.get_mut(&be_id) else {
             return;
@@ -361,7 +371,7 @@ impl Workload {
         }
 
         // We don't *have* to wait on glyph order, but if we don't it delays the critical path
-        if has_components {
+        if has_components || glyph_order_started {
             deps = deps.variant(FeWorkIdentifier::GlyphOrder);
         }
 
